@@ -134,6 +134,10 @@ pub trait Property: Sync {
     fn noisy_clause(&self, _clause: &str) -> bool {
         false
     }
+    /// known-finding classifier for failures the parent attributes to a case (hang, abort)
+    fn classify_abnormal(&self, _case: &Case, _clause: &str) -> Option<String> {
+        None
+    }
     /// per-case hang limit in seconds (isolated mode)
     fn hang_limit_s(&self, _case: &Case) -> u64 {
         120
@@ -308,7 +312,9 @@ pub fn evaluate(prop: &dyn Property, c: &Case) -> CheckResult {
             let _ = child.kill();
             let _ = child.wait();
             let _ = std::fs::remove_file(&path);
-            return Ok(Err(Fail::new(&format!("{}.no_hang", prop.id()), "hang".into())));
+            let clause = format!("{}.no_hang", prop.id());
+            let known = prop.classify_abnormal(c, &clause);
+            return Ok(Err(Fail { clause, detail: "hang".into(), known }));
         }
         std::thread::sleep(std::time::Duration::from_millis(5));
     };
@@ -1257,7 +1263,8 @@ pub fn explore_batch_isolated(prop: &dyn Property, tier: Tier, seed: u64, runs: 
             match serde_json::from_str::<Case>(&intent) {
                 Ok(case) => {
                     let clause = if how == "hang" { format!("{}.no_hang", prop.id()) } else { format!("{}.no_abort", prop.id()) };
-                    out.fails.push((from, case, Fail { clause, detail: how, known: None }));
+                    let known = prop.classify_abnormal(&case, &clause);
+                    out.fails.push((from, case, Fail { clause, detail: how, known }));
                 }
                 Err(_) => out.harness_errors.push(format!("child for runs from {from} died without a parsable intent: {how}")),
             }
